@@ -107,5 +107,9 @@ def global_sources(P, fn, o):
     out = set()
     for t, f in expand_params(P, fn, origins(fn, o)):
         if t[0] == "gload":
-            out.add((t[1], f))
+            gd = P.globals.get(t[1]) or {}
+            if str(gd.get("type") or "").startswith("[") and str(gd.get("type")).rstrip("]").endswith("*") and gd.get("internal") and len(t) > 2 and t[2] is not None:
+                out.add(("%s+%d" % (t[1], t[2]), f))          # one slot of a file-static array of object pointers is an object of its own
+            else:
+                out.add((t[1], f))
     return out
